@@ -102,11 +102,11 @@ def csr_roles(m):
                 nm = _len_of_acc(simp(f.value))
                 if nm is not None and nm != f.target:
                     lens.setdefault(nm, []).append(f)
-        cands = [nm for nm in lens if any(g.kind == "append" and g.target == nm and g.loops for g in fl.facts)]
+        cands = [nm for nm in lens if any(_grows(g) and g.target == nm and g.loops for g in fl.facts)]
         if len(cands) == 1:
             measured = cands[0]
             roles["rows"] = lens[measured]
-            sites = {tuple(l.id for l in g.loops) for g in fl.facts if g.kind == "append" and g.target == measured}
+            sites = {tuple(l.id for l in g.loops) for g in fl.facts if _grows(g) and g.target == measured}
             if len(sites) == 1:
                 inc_loops = next(iter(sites))
     rows_names = {f.target for f in roles.get("rows", [])}
@@ -119,7 +119,30 @@ def csr_roles(m):
         if f.kind == "append" and f.target not in rows_names and f.loops and inc_loops is not None and tuple(l.id for l in f.loops) == inc_loops:
             v = simp(f.value)
             roles.setdefault("cols" if is_position(v) else "vals", []).append(f)
+        elif _grows(f) and f.kind == "mutate" and f.target not in rows_names and f.loops and inc_loops is not None and tuple(l.id for l in f.loops) == inc_loops:
+            # a whole row's selection added at once: `cols.extend(pos for pos, e in enumerate(row) if ..)` / `vals.extend(e for ..)`
+            mm = _as_selection(f.value)
+            if mm is not None:
+                roles.setdefault("cols" if mm[1] == ("item", mm[0], 0) else "vals", []).append(f)
     return counter, roles, measured
+
+
+def _grows(f) -> bool:
+    return f.kind == "append" or (f.kind == "mutate" and f.op == "extend" and f.value is not None)
+
+
+def _as_selection(v):
+    """`[g(t) for t in enumerate(S) if c(t)]` (nested comprehensions composed) -> (bv, body, S, ifs), else None"""
+    from ..valueflow import as_map
+    v = simp(v)
+    mm = as_map(v) if v[0] == "comp" else None
+    if mm is None:
+        return None
+    bv, body, base, ifs = mm
+    base = simp(base)
+    if not (base[0] == "call" and base[1] == ("global", "enumerate") and len(base[2]) == 1 and not base[3]):
+        return None
+    return bv, simp(body), simp(base[2][0]), tuple(simp(c) for c in ifs)
 
 
 def contains_carried(v, name):
@@ -220,6 +243,64 @@ def _per_row_position_sets(ctx, m, W) -> bool:
     return True
 
 
+def _column_set_scan(ctx, m, W, colloop) -> bool:
+    """The column loop of the CSR scan walks a recorded SET of columns (`for col in sorted(S)`, S filled with `S.update(<columns>)` /
+    `S.add(col)` during assembly) instead of range(n_eqns).  Every column some writer of the Jacobian table stores into must then be a
+    column the scan visits: each accumulation site needs a record of its column(s) in the loops that enclose it.  A writer without one
+    (the ODE-modifier block, a thermal loop) leaves entries in the dense table that the sparse arrays never store.
+    -> True when this construction was recognised (obligations emitted)."""
+    from ..valueflow import as_map
+    fl = m.flow
+    it = simp(colloop.iter)
+    if it[0] == "call" and it[1] == ("global", "sorted") and len(it[2]) == 1 and not it[3]:
+        it = it[2][0]
+    if it[0] != "acc":
+        return False
+    S = it[1]
+    inits = [f for f in fl.facts if f.kind == "init" and f.target == S]
+    if len(inits) != 1 or simp(inits[0].value) not in (("call", ("global", "set"), (), ()), ("set", ())):
+        return False
+    recs = [f for f in fl.facts if f.target == S and f.kind in ("mutate", "append") and f.value is not None]
+    other = [f for f in fl.facts if f.target == S and f.kind not in ("init",) and f not in recs]
+    nsite = 0
+    for site in m.sites:
+        if site.array != "jacrhs" or site.kind not in ("loss", "gain", "mod", "heat", "cool"):
+            continue
+        d = m.decode_flat(simp(site.fact.index), tuple((simp(g), p) for g, p in site.fact.guards))
+        if d is None:
+            continue
+        nsite += 1
+        col = simp(d[1])
+        ids = [l.id for l in site.fact.loops]
+        covered = False
+        for r in recs:
+            rids = [l.id for l in r.loops]
+            if rids != ids[:len(rids)] or any((simp(g), p) not in [(simp(g2), p2) for g2, p2 in site.fact.guards] for g, p in r.guards):
+                continue
+            v = simp(r.value)
+            if r.op in ("add", "append") or r.kind == "append":
+                covered = covered or v == col
+            elif r.op == "update":
+                mm = as_map(v) if v[0] in ("comp",) else None
+                if mm is not None and not mm[3]:
+                    bv, body, base, _ = mm
+                    covered = covered or any(simp(subst_(body, {bv: ("elem", simp(base), lid)})) == col for lid in ids)
+                elif v[0] in ("list", "tuple", "set"):
+                    covered = covered or col in [simp(x) for x in v[1]]
+        ctx.check(covered, "R1", f"column record:{site.kind}@{site.fact.line}", (FILE, site.fact.line),
+                  f"the column of the {site.kind} term is recorded in `{S}`, the set of columns the CSR scan visits" if covered else
+                  f"the CSR scan only visits the columns recorded in `{S}`, and the {site.kind} site stores a term into the Jacobian table without recording its column there: an "
+                  "entry in a column that no other writer records is assigned by the dense / odeint Jacobian and marked in the pattern file, but is missing from the sparse "
+                  "(CSR) arrays and from NNZ",
+                  expected=f"{S}.add(<column>) / {S}.update(<columns>) in the loops of every writer of the table", found="no record of this site's column")
+    if not nsite:
+        return False
+    if not ctx.by("VIOLATION"):
+        ctx.unrec("R1", "csr-construction:from recorded columns", W, f"the CSR scan visits the recorded columns `{S}` only; beyond the pairing of writers and records the construction is not decided"
+                  + (f" ({len(other)} other uses of the set)" if other else ""))
+    return True
+
+
 def _r1(ctx, m):
     fl = m.flow
     W = (FILE, m.func.lineno)
@@ -272,9 +353,15 @@ def _r1(ctx, m):
     inc = incs[0] if incs else None
     # (b) loops
     if (counter is not None and inc is None) or len(cols) != 1 or len(vals) != 1:
-        ctx.bad("R1", "csr-sites", W, f"expected one cols.append, one vals.append and one increment; found {len(cols)}, {len(vals)}, {len(incs)}")
+        # several append sites (arms of a condition, stages): a spelling of the scan that is not understood
+        ctx.unrec("R1", "csr-sites", W, f"expected one cols.append, one vals.append and one increment; found {len(cols)}, {len(vals)}, {len(incs)}")
         return
     c, v = cols[0], vals[0]
+    if c.kind == "mutate" and v.kind == "mutate" and counter is None:
+        return _r1_rowwise(ctx, m, rows, c, v, names, measured)
+    if c.kind == "mutate" or v.kind == "mutate":
+        ctx.unrec("R1", "csr-construction", W, "one CSR list grows by append and another by extend: the construction is not understood")
+        return
     together = [c, v] + ([inc] if inc is not None else [])
     scan = v.loops
     # the scan: `for row in range(n): for col in range(n): entry = table[row*n + col]`  or
@@ -291,6 +378,8 @@ def _r1(ctx, m):
                     and it1[2][0][1] == m.JAC and it1[2][0][2][0] == "slice":
                 form = "rowslice"
     if form is None and _per_row_position_sets(ctx, m, W):
+        return
+    if form is None and len(scan) == 2 and _column_set_scan(ctx, m, W, scan[1]):
         return
     if form is None:
         # restructured builder: the one obligation that is independent of the loop shape --
@@ -321,13 +410,23 @@ def _r1(ctx, m):
         return
     rowloop, colloop = scan
     rowstart, complete, found_rows = origin
-    ctx.check(complete, "R1", "row-loop", (FILE, rowloop.line), f"the row loop `for {rowloop.target} in ..` visits every row 0 .. n_eqns-1 once, ascending",
-              expected="range(n_eqns)  /  range(0, n_eqns*n_eqns, n_eqns)  /  one item per element of range(n_eqns)", found=found_rows[:100])
+    def bounds_known(lp_):
+        """the loop's range(..) bounds are arithmetic over n_spec / n_eqns / integers: a bound that is NOT n_eqns is then a wrong bound"""
+        r_ = [x for x in walk_(simp(lp_.iter)) if isinstance(x, tuple) and len(x) == 4 and x[0] == "call" and x[1] == ("global", "range")]
+        return bool(r_) and all(m._known_arith(a_) for x in r_ for a_ in x[2]) and not any(isinstance(x, tuple) and x and x[0] == "comp" and any(g_[2] for g_ in x[3]) for x in walk_(simp(lp_.iter)))
+    if complete or bounds_known(rowloop) or "filtered" in found_rows[:12]:
+        ctx.check(complete, "R1", "row-loop", (FILE, rowloop.line), f"the row loop `for {rowloop.target} in ..` visits every row 0 .. n_eqns-1 once, ascending",
+                  expected="range(n_eqns)  /  range(0, n_eqns*n_eqns, n_eqns)  /  one item per element of range(n_eqns)", found=found_rows[:100])
+    else:
+        ctx.unrec("R1", "row-loop", (FILE, rowloop.line), f"the bounds of the row loop are not understood: {found_rows[:100]}")
     it = simp(colloop.iter)
     if form == "range":
         ok = len(it[2]) == 1 and not it[3] and m.is_n_eqns(it[2][0])
-        ctx.check(ok, "R1", "col-loop", (FILE, colloop.line), f"col loop is `for {colloop.target} in range(n_eqns)` (ascending, complete)",
-                  expected="range(n_eqns)", found=show(it)[:100])
+        if ok or bounds_known(colloop):
+            ctx.check(ok, "R1", "col-loop", (FILE, colloop.line), f"col loop is `for {colloop.target} in range(n_eqns)` (ascending, complete)",
+                      expected="range(n_eqns)", found=show(it)[:100])
+        else:
+            ctx.unrec("R1", "col-loop", (FILE, colloop.line), f"the bounds of the column loop are not understood: {show(it)[:100]}")
         colvar = ("elem", it, colloop.id)
         entry = None            # from the guard, below
     else:
@@ -402,22 +501,153 @@ def _r1(ctx, m):
                       found=show(slot_idx)[:120])
         else:
             ctx.ok("R1", "entry-index", (FILE, c.line), "the tested entry is the element the column loop enumerates: jacrhs[row*n_eqns + col]")
-        ctx.check(simp(c.value) == colvar, "R1", "cols-value", (FILE, c.line),
-                  "the column list receives the column loop variable", found=show(simp(c.value))[:80])
+        cv = simp(c.value)
+        rowvar_ = ("elem", simp(rowloop.iter), rowloop.id)
+        # wrong: another position built from the two loop variables; a value computed elsewhere is not understood
+        pos_known = all(x in (colvar, rowvar_) or x[0] in ("binop", "const", "unop") or m.is_n_eqns(x) for x in _atoms(cv, (colvar, rowvar_), m))
+        if cv == colvar or pos_known:
+            ctx.check(cv == colvar, "R1", "cols-value", (FILE, c.line), "the column list receives the column loop variable", found=show(cv)[:80])
+        else:
+            ctx.unrec("R1", "cols-value", (FILE, c.line), f"the value appended to the column list is not traced to the loop variables: {show(cv)[:80]}")
         lw = lower(v.value)
         hv = list(lw.holes.values())
         ok = len(hv) == 1 and hv[0] in (entry, ("fmt", entry, None, -1)) and lw.text.strip() == next(iter(lw.holes))
-        ctx.check(ok, "R1", "vals-value", (FILE, v.line), "the value list receives that same entry, unchanged", found=lw.text)
+        if ok or (len(hv) == 1 and hv[0] in (entry, ("fmt", entry, None, -1)) and not lw.seqs) or not hv:
+            # wrong: the entry with text around it, or a constant
+            ctx.check(ok, "R1", "vals-value", (FILE, v.line), "the value list receives that same entry, unchanged", found=lw.text)
+        else:
+            ctx.unrec("R1", "vals-value", (FILE, v.line), f"the value appended to the value list is not traced to the tested entry: {lw.text[:80]}")
     # (f) nothing else touches the lists
     allnames = set(sum(names.values(), []))
     extra = [f for f in fl.facts if f.target in allnames and f.kind not in ("init", "append")]
-    ctx.check(not extra, "R1", "no-other-writer", (FILE, extra[0].line if extra else m.func.lineno),
-              "the CSR lists are only initialised empty and appended to", found="; ".join(f"{f.kind}@{f.line}" for f in extra))
+    grow = [f for f in extra if f.kind == "mutate" and f.op in ("extend", "__iadd__", "iadd")]
+    if extra and len(grow) == len(extra):
+        # further elements added in bulk: another spelling of filling the lists, not understood here
+        ctx.unrec("R1", "no-other-writer", (FILE, extra[0].line), "the CSR lists also grow by " + "; ".join(f"{f.op}@{f.line}" for f in extra) + ": not understood")
+    else:
+        ctx.check(not extra, "R1", "no-other-writer", (FILE, extra[0].line if extra else m.func.lineno),
+                  "the CSR lists are only initialised empty and appended to", found="; ".join(f"{f.kind}@{f.line}" for f in extra))
     for nm in sorted(allnames):
         ini = [f for f in fl.facts if f.kind == "init" and f.target == nm]
         empty = ("list", (("const", 0),)) if (trailing and nm in names["rows"]) else ("list", ())
-        ctx.check(len(ini) == 1 and simp(ini[0].value) == empty and not ini[0].loops, "R1", f"init:{nm}", (FILE, ini[0].line if ini else m.func.lineno),
-                  f"`{nm}` starts as the empty list, once" if empty == ("list", ()) else f"`{nm}` starts as [0], once", found="; ".join(show(f.value) for f in ini))
+        good = len(ini) == 1 and simp(ini[0].value) == empty and not ini[0].loops
+        # wrong: initialised more than once / inside a loop, or to a display with other content; another kind of value is not understood
+        if good or len(ini) != 1 or ini[0].loops or simp(ini[0].value)[0] == "list":
+            ctx.check(good, "R1", f"init:{nm}", (FILE, ini[0].line if ini else m.func.lineno),
+                      f"`{nm}` starts as the empty list, once" if empty == ("list", ()) else f"`{nm}` starts as [0], once", found="; ".join(show(f.value) for f in ini))
+        else:
+            ctx.unrec("R1", f"init:{nm}", (FILE, ini[0].line), f"the initial value of `{nm}` is not read as a list display: {show(simp(ini[0].value))[:80]}")
+
+
+def _atoms(v, leaves, m):
+    """the sub-terms of an index expression down to the given leaves / n_eqns spellings (which are not entered)"""
+    if v in leaves or m.is_n_eqns(v) or not isinstance(v, tuple):
+        yield v
+        return
+    if v[0] in ("binop", "unop"):
+        yield v
+        for x in v[2:]:
+            if isinstance(x, tuple):
+                yield from _atoms(x, leaves, m)
+        return
+    yield v
+
+
+def _r1_rowwise(ctx, m, rows, c, v, names, measured):
+    """R1 for the row-wise spelling of the scan
+
+        for row in range(n):  [rows.append(len(vals))]
+            cols.extend(pos for pos, e in enumerate(T[row*n:(row+1)*n]) if e != sentinel)
+            vals.extend(e   for pos, e in enumerate(T[row*n:(row+1)*n]) if e != sentinel)
+            [rows.append(len(vals))]
+
+    -- the same obligations as the element-wise scan: every row once in ascending order, the columns of a row in ascending order and
+    complete (the positions of its slice), both lists selected by the one test `entry != sentinel`, the row pointer before the row
+    (plus a final one) or after it (the list starting as [0])."""
+    fl = m.flow
+    W = (FILE, m.func.lineno)
+    own = measured in names.get("vals", []) + names.get("cols", [])
+    ctx.check(own, "R1", "nnz-by-length", W, f"the number of stored entries is read as len({measured}), the list that receives one element per stored entry",
+              found=f"len({measured}); value list {names.get('vals')}, column list {names.get('cols')}")
+    if len(v.loops) != 1:
+        ctx.unrec("R1", "csr-construction", W, "the row-wise CSR builder is not one loop over the rows; cannot decide well-formedness")
+        return
+    rowloop = v.loops[0]
+    origin = _row_origin(m, rowloop)
+    sc, sv = _as_selection(c.value), _as_selection(v.value)
+    if origin is None or sc is None or sv is None:
+        ctx.unrec("R1", "csr-construction", W, "the row-wise CSR builder's row loop / selections are not understood")
+        return
+    rowstart, complete, found_rows = origin
+    ctx.check(complete, "R1", "row-loop", (FILE, rowloop.line), f"the row loop `for {rowloop.target} in ..` visits every row 0 .. n_eqns-1 once, ascending",
+              expected="range(n_eqns)", found=found_rows[:100]) if (complete or all(m._known_arith(a_) for x in walk_(simp(rowloop.iter)) if isinstance(x, tuple) and len(x) == 4 and x[0] == "call"
+                                                                 and x[1] == ("global", "range") for a_ in x[2])) else \
+        ctx.unrec("R1", "row-loop", (FILE, rowloop.line), f"the bounds of the row loop are not understood: {found_rows[:100]}")
+    # the slice both selections enumerate
+    ok_slice = True
+    for nm_, sel in (("cols", sc), ("vals", sv)):
+        seq = sel[2]
+        good = seq[0] == "sub" and seq[1] == m.JAC and seq[2][0] == "slice"
+        if good:
+            sl = seq[2]
+            lo = {} if sl[1] == ("const", None) else _npoly(m, sl[1])
+            good = sl[3] == ("const", None) and sl[2] != ("const", None) and lo == _npoly(m, rowstart) and _npoly(m, sl[2]) == _npoly(m, ("binop", "Add", rowstart, _NEQ))
+            ctx.check(bool(good), "R1", f"col-loop:{nm_}", (FILE, c.line if nm_ == "cols" else v.line),
+                      "the selection enumerates the row's slice jacrhs[row*n_eqns : (row+1)*n_eqns] (ascending, complete; position in the slice = column)",
+                      expected="enumerate(jacrhs[row*n_eqns : (row+1)*n_eqns])", found=show(seq)[:120])
+        else:
+            ok_slice = False
+            ctx.unrec("R1", f"col-loop:{nm_}", (FILE, c.line), f"the sequence the selection enumerates is not a slice of the Jacobian table: {show(seq)[:100]}")
+    # one test, entry != sentinel, for both
+    z = ("bv", "_", 0)
+    tests = [tuple(subst_(t, {sel[0]: z}) for t in sel[3]) for sel in (sc, sv)]
+    guard_ok = False
+    if tests[0] == tests[1] and len(tests[0]) == 1:
+        b = match(("cmp", (V("op"),), (V("e"), V("lit"))), tests[0][0])
+        if b and b["op"] == "NotEq" and b["lit"][0] == "const" and b["e"] == ("item", z, 1):
+            guard_ok = True
+            ctx.stats["csr_sentinel"] = b["lit"][1]
+    understood = all(len(t) <= 1 and all(match(("cmp", (V("op"),), (("item", z, 1), V("lit"))), x) for x in t) for t in tests)
+    if guard_ok or understood:
+        ctx.check(guard_ok, "R1", "single-guard", (FILE, c.line), "columns and values are selected by the one test `entry != sentinel`",
+                  expected="... for pos, e in enumerate(row) if e != '0.0'", found="; ".join(" & ".join(show(x)[:60] for x in t) or "<unfiltered>" for t in tests))
+    else:
+        ctx.unrec("R1", "single-guard", (FILE, c.line), "the tests selecting columns / values are not understood: " + "; ".join(" & ".join(show(x)[:60] for x in t) for t in tests))
+    if guard_ok and ok_slice:
+        ctx.ok("R1", "entry-index", (FILE, c.line), "the tested entry is the element the selection enumerates: jacrhs[row*n_eqns + col]")
+        ctx.check(sc[1] == ("item", sc[0], 0), "R1", "cols-value", (FILE, c.line), "the column list receives the position in the row's slice", found=show(sc[1])[:80])
+        body = sv[1]
+        if body[0] == "fstr" and len(body[1]) == 1 and body[1][0][0] == "fmt" and body[1][0][2] is None:
+            body = body[1][0][1]
+        ctx.check(body == ("item", sv[0], 1), "R1", "vals-value", (FILE, v.line), "the value list receives that same entry, unchanged", found=show(sv[1])[:80])
+    # row pointers
+    inrow = [f for f in rows if tuple(l.id for l in f.loops) == (rowloop.id,)]
+    tail = [f for f in rows if not f.loops]
+    others = [f for f in rows if f not in inrow and f not in tail]
+    first_sel, last_sel = min(c.seq, v.seq), max(c.seq, v.seq)
+    last_loop_fact = max(f.seq for f in fl.facts if rowloop in f.loops)
+    rows_init = [simp(f.value) for f in fl.facts if f.kind == "init" and f.target in names["rows"]]
+    trailing = rows_init == [("list", (("const", 0),))] and len(inrow) == 1 and not tail and not others and not inrow[0].guards and inrow[0].seq > last_sel
+    ok = trailing or (len(inrow) == 1 and not inrow[0].guards and inrow[0].seq < first_sel and not others)
+    ctx.check(ok, "R1", "rowptr-before-columns", (FILE, inrow[0].line if inrow else rowloop.line),
+              "each row appends the running count to the row pointers before its columns are added (or after them, the list starting as [0]), unconditionally",
+              found=f"{len(inrow)} in-row appends, {len(others)} elsewhere, initial value {[show(x) for x in rows_init]}")
+    ok = trailing or (len(tail) == 1 and not tail[0].guards and tail[0].seq > last_loop_fact and _evaluated_after(fl, simp(tail[0].value), tail[0].seq, last_loop_fact))
+    ctx.check(ok, "R1", "rowptr-final", (FILE, tail[0].line if tail else rowloop.line),
+              "the row pointers end at the non-zero count (a final append after the loop, or the last row's own append)", found=f"{len(tail)} appends after the loop")
+    allnames = set(sum(names.values(), []))
+    extra = [f for f in fl.facts if f.target in allnames and f.kind not in ("init", "append") and f is not c and f is not v]
+    ctx.check(not extra, "R1", "no-other-writer", (FILE, extra[0].line if extra else m.func.lineno),
+              "the CSR lists are only initialised and grown by the statements above", found="; ".join(f"{f.kind}@{f.line}" for f in extra))
+    for nm in sorted(allnames):
+        ini = [f for f in fl.facts if f.kind == "init" and f.target == nm]
+        empty = ("list", (("const", 0),)) if (trailing and nm in names["rows"]) else ("list", ())
+        good = len(ini) == 1 and simp(ini[0].value) == empty and not ini[0].loops
+        if good or len(ini) != 1 or ini[0].loops or simp(ini[0].value)[0] == "list":
+            ctx.check(good, "R1", f"init:{nm}", (FILE, ini[0].line if ini else m.func.lineno),
+                      f"`{nm}` starts as the empty list, once" if empty == ("list", ()) else f"`{nm}` starts as [0], once", found="; ".join(show(f.value) for f in ini))
+        else:
+            ctx.unrec("R1", f"init:{nm}", (FILE, ini[0].line), f"the initial value of `{nm}` is not read as a list display: {show(simp(ini[0].value))[:80]}")
 
 
 def _evaluated_after(fl, v, use_seq, after_seq):
@@ -434,17 +664,26 @@ def _evaluated_after(fl, v, use_seq, after_seq):
 def _r2_r5(ctx, m, tsent=()):
     pkg = package(ctx.tree)
     sent = {}
+    notread = []        # sentinel sites that exist but whose literal could not be read
     fl = m.flow
     for s in m.sites:
         if s.array == "jacrhs" and s.kind == "init":
             v = simp(s.fact.value)
-            lits = [x[1] for x in __import__("sa.valueflow", fromlist=["walk"]).walk(v) if isinstance(x, tuple) and len(x) == 2 and x[0] == "const" and isinstance(x[1], str)]
-            sent[("jacrhs init", FILE, s.line)] = lits[0] if len(lits) == 1 else None
+            # the cell the table is filled with, read by value ([c] * n * n, [c for ..], repeat(c, n) ..)
+            from .c02 import const_table
+            t = const_table(v)
+            if t is not None and t[0][0] == "const":
+                sent[("jacrhs init", FILE, s.line)] = t[0][1]
+            else:
+                notread.append(("jacrhs init", s.line, show(v)[:100]))
         if s.array == "jacrhs" and s.kind == "wrap":
             v = s.value
-            if v[0] == "ifexp" and v[1][0] == "cmp":
-                sent[("thermal wrap test", FILE, s.line)] = v[1][2][1][1] if v[1][2][1][0] == "const" else None
-                sent[("thermal wrap kept value", FILE, s.line)] = v[2][1] if v[2][0] == "const" else (v[3][1] if v[3][0] == "const" else None)
+            if v[0] in ("ifexp", "phi") and len(v) == 4 and v[1][0] == "cmp" and len(v[1][2]) == 2:
+                lit_ = v[1][2][1][1] if v[1][2][1][0] == "const" else None
+                sent[("thermal wrap test", FILE, s.line)] = lit_
+                slot_ = ("sub", m.JAC, simp(s.fact.index))
+                # the value kept for a sentinel entry: a literal, or the untouched entry itself (then it is the tested literal)
+                sent[("thermal wrap kept value", FILE, s.line)] = v[2][1] if v[2][0] == "const" else (v[3][1] if v[3][0] == "const" else (lit_ if slot_ in (v[2], v[3]) else None))
             else:
                 # the wrap as a conditional store `if entry != sentinel: entry = wrap(entry)`: the test is in the guard, the kept
                 # value is the untouched entry itself
@@ -467,9 +706,14 @@ def _r2_r5(ctx, m, tsent=()):
     _pattern_writer(ctx, rf, fn, sent)
     # R2 verdict
     W = (FILE, m.func.lineno)
-    ctx.floor("R2", "sentinel sites", len(sent), 6 if "csr_sentinel" not in ctx.stats else 7, W)
-    vals = set(sent.values())
+    for label, line, what in notread:
+        ctx.unrec("R2", f"sentinel:{label}", (FILE, line), f"the literal the {label} uses as sentinel could not be read: {what}")
+    ctx.floor("R2", "sentinel sites", len(sent) + len(notread), 6 if "csr_sentinel" not in ctx.stats else 7, W)
     for (label, rel, line), lit in sorted(sent.items()):
+        if lit is None:
+            # the site exists but does not compare with / keep a literal: not understood (a DIFFERENT literal is the violation)
+            ctx.unrec("R2", f"sentinel:{label}", (rel, line), f"the literal the {label} uses as sentinel could not be read")
+            continue
         ctx.check(lit == "0.0", "R2", f"sentinel:{label}", (rel, line), f"{label} uses the sentinel '0.0'", expected="'0.0'", found=repr(lit))
 
 
@@ -599,6 +843,13 @@ def _pattern_writer(ctx, rf, fn, sent):
 
 # ------------------------------------------------------------------ R3
 
+def _walk_j(e):
+    if isinstance(e, tuple):
+        yield e
+        for y in e:
+            yield from _walk_j(y)
+
+
 def _loop_sites(ctx, label, rel, cfg, fname, field, lhs_pat):
     """In function `fname`: exactly one loop writes `lhs[ <index> ] = {{ entry }}`; it must iterate ode.jac.<field>."""
     # `{% set %}` variables read as the expressions they stand for, index arithmetic in canonical form (`loop.index - 1` = `loop.index0`)
@@ -615,7 +866,7 @@ def _loop_sites(ctx, label, rel, cfg, fname, field, lhs_pat):
         if mm:
             hits.append((it, flat, mm))
     if len(hits) != 1:
-        (ctx.bad if hits else ctx.missing)("R3", key, (rel, 0), f"{fname} has {len(hits)} loops writing {lhs_pat.split('[')[0].strip(chr(92))}[..], expected one")
+        (ctx.unrec if hits else ctx.missing)("R3", key, (rel, 0), f"{fname} has {len(hits)} loops writing {lhs_pat.split('[')[0].strip(chr(92))}[..], expected one")
         return
     it, flat, mm = hits[0]
     FIELD = ("attr", ("attr", ("name", "ode"), "jac"), field)
@@ -646,9 +897,17 @@ def _loop_sites(ctx, label, rel, cfg, fname, field, lhs_pat):
     base, fs = J.unfilter(val)
     ok_idx = idx == ("attr", ("name", "loop"), "index0")
     ok_val = base == var and all(f[0] in ("stmwrap",) or (f[0] == "replace" and field == "vals") for f in fs)
-    ctx.check(ok_idx and ok_val, "R3", key, (rel, it[5]),
-              f"entry n of ode.jac.{field} is written to position n (loop.index0), unfiltered",
-              expected="[loop.index0] = entry", found=f"[{J.show(idx)}] = {J.show(val)}")
+    from .c02 import _paths_in
+    # wrong: a subscript that is other arithmetic over the loop position, a value that is another field of the Jacobian / another
+    # loop variable; anything else (a helper macro, a further filter) is not understood
+    idx_known = _paths_in(idx) <= {"loop", "loop.index0", "loop.index"} and not any(isinstance(x, tuple) and x and x[0] in ("call", "filter", "item") for x in _walk_j(idx))
+    val_known = (base == var and not fs) or (base != var and (base[0] == "name" or (J.path(base) or "").startswith("ode.jac.")))
+    if (ok_idx and ok_val) or ((ok_idx or idx_known) and (ok_val or val_known)):
+        ctx.check(ok_idx and ok_val, "R3", key, (rel, it[5]),
+                  f"entry n of ode.jac.{field} is written to position n (loop.index0), unfiltered",
+                  expected="[loop.index0] = entry", found=f"[{J.show(idx)}] = {J.show(val)}")
+    else:
+        ctx.unrec("R3", key, (rel, it[5]), f"the statement filling this array is not understood: [{J.show(idx)[:60]}] = {J.show(val)[:80]}")
 
 
 def _r3(ctx):
@@ -656,7 +915,11 @@ def _r3(ctx):
     m = model(ctx.tree)
     from ..odemodel import write_read_order
     last, first = write_read_order(m, "jacrhs")
-    if last is not None and first is not None:
+    from .c02 import _csr_consumer
+    if last is not None and first is not None and last.seq >= first[0] and not _csr_consumer(m, first):
+        ctx.unrec("R3", "csr built from the final jacrhs", (FILE, last.line), f"jacrhs is read at line {first[1]} ({first[2]}) before its last store at line {last.line}; that reader is "
+                  "not recognised as the CSR builder / the Jacobian object")
+    elif last is not None and first is not None:
         ctx.check(last.seq < first[0], "R3", "csr built from the final jacrhs", (FILE, last.line),
                   "the CSR arrays are built after the last store into jacrhs" if last.seq < first[0] else
                   f"jacrhs is modified at line {last.line} after the CSR arrays were built (line {first[1]}): sparse and dense layouts hold different values",
@@ -707,7 +970,13 @@ def _r3(ctx):
                 ctx.bad("R3", "cvode/cusparse:InitJac:binding", (JAC, it[2]), f"{arr} is initialised from {J.show(base)}, not from {p}", expected=p, found=J.show(base))
                 continue
             good = base == FIELD and names[:1] == ["join"] and all(n == "stmwrap" for n in names[1:])
-            ctx.check(good, "R3", key, (JAC, it[2]), f"{arr} initialiser is the complete {p} sequence joined by ', '", found=J.show(it[1]))
+            cut = any(n in ("select", "reject", "selectattr", "rejectattr", "slice", "batch", "unique", "sort", "reverse", "first", "last") for n in names) or base != FIELD and base[0] == "item"
+            # wrong: a filtered / sliced / re-ordered view of the field; other filters are not understood
+            root = base[1] if base[0] == "item" else base
+            if good or (cut and J.path(root) == p):
+                ctx.check(good, "R3", key, (JAC, it[2]), f"{arr} initialiser is the complete {p} sequence joined by ', '", found=J.show(it[1]))
+            else:
+                ctx.unrec("R3", key, (JAC, it[2]), f"the initialiser of {arr} is not understood: {J.show(it[1])[:100]}")
         elif it[0] == "for":
             root = it[2]
             while root[0] in ("filter", "item"):
@@ -765,9 +1034,15 @@ def _r4_reactions(ctx):
     inits = [f for f in fl.facts if f.kind == "init" and f.value and f.value[0] == "meth" and f.value[2] == "_assign_rates"]
     inits += [type("F", (), {"value": v, "line": line}) for nm, lst in fl.assigns.items() for v, loops, g, line, seq in lst if v[0] == "meth" and v[2] == "_assign_rates"]
     k = [f for f in inits if f.value[3] and f.value[3][0] == ("const", "k")]
-    ok = bool(k) and all(simp(f.value[3][1]) == m.REAC_FIELD for f in k)
-    ctx.check(ok, "R4", "k assignments enumerate netinfo.reactions", (FILE, k[0].line if k else m.func.lineno),
-              "_assign_rates('k', ..) receives netinfo.reactions", found=show(simp(k[0].value[3][1]))[:80] if k else "missing")
+    ok = bool(k) and all(len(f.value[3]) > 1 and simp(f.value[3][1]) == m.REAC_FIELD for f in k)
+    # wrong: the rates are assigned over the locally extended view of the list (or over another list of the network)
+    k_known = bool(k) and all(len(f.value[3]) > 1 and (simp(f.value[3][1]) in (m.REAC, m.HEAT, m.COOL) or (simp(f.value[3][1])[0] == "attr" and simp(f.value[3][1])[1] == m.NI)) for f in k)
+    if ok or k_known:
+        ctx.check(ok, "R4", "k assignments enumerate netinfo.reactions", (FILE, k[0].line if k else m.func.lineno),
+                  "_assign_rates('k', ..) receives netinfo.reactions", found=show(simp(k[0].value[3][1]))[:80] if k else "missing")
+    else:
+        ctx.unrec("R4", "k assignments enumerate netinfo.reactions", (FILE, k[0].line if k else m.func.lineno),
+                  "the call _assign_rates('k', <list>, ..) was not found / its list is not traced to a field of netinfo")
     # (b) the field receives network.reactions (the property that supplies the dummy reaction of an empty network)
     import ast as _ast
     for file, cls, meth in ((FILE, "TemplateLoader", "render"), ("naunet/patches.py", "EnzoPatch", "render")):
@@ -822,16 +1097,41 @@ def _r4(ctx):
             "NCOOLPROCS": ("filter", "length", ("attr", ("name", "network"), "cooling"), (), ()),
             "NREACTIONS": ("filter", "length", ("attr", ("name", "network"), "reactions"), (), ()),
             "NNZ": ("attr", ("attr", ("name", "ode"), "jac"), "nnz")}
+    from .c02 import _paths_in
     for name, w in want.items():
         got = defs.get(name)
-        ctx.check(got is not None and got[0] == w, "R4", f"macro:{name}", (MACROS, got[1] if got else 0),
-                  f"{name} is defined as {J.show(w)} -- the length of the sequence the generator enumerates",
-                  expected=J.show(w), found=J.show(got[0]) if got else "undefined")
-    txt = _norm(strip_comments(tree.read(MACROS)))
-    ctx.check("#defineTHERMAL(NHEATPROCS||NCOOLPROCS)" in txt, "R4", "macro:THERMAL", (MACROS, 0), "THERMAL = (NHEATPROCS || NCOOLPROCS), as has_thermal in Python")
+        # wrong: undefined, or another expression over the network's lists / the Jacobian's fields (another list, a length off by one);
+        # a value computed some other way (macro, helper filter) is not understood
+        known = got is not None and all(p_.split(".")[0] in ("network", "ode") for p_ in _paths_in(got[0])) and \
+            not any(isinstance(x, tuple) and x and (x[0] in ("call", "test") or (x[0] == "filter" and x[1] not in ("length", "int"))) for x in _walk_j(got[0]))
+        if got is None or got[0] == w or known:
+            ctx.check(got is not None and got[0] == w, "R4", f"macro:{name}", (MACROS, got[1] if got else 0),
+                      f"{name} is defined as {J.show(w)} -- the length of the sequence the generator enumerates",
+                      expected=J.show(w), found=J.show(got[0]) if got else "undefined")
+        else:
+            ctx.unrec("R4", f"macro:{name}", (MACROS, got[1]), f"{name} is defined as `{J.show(got[0])[:100]}`: not read as a length / field of the rendered objects")
+    raw = strip_comments(tree.read(MACROS))
+    txt = _norm(raw)
+
+    def cpp_defs(name):
+        """the replacement texts of `#define <name> ..` and whether all of them are arithmetic over the size macros only"""
+        reps = [_norm(x) for x in re.findall(r"^[ \t]*#[ \t]*define[ \t]+" + name + r"\b(.*)$", raw, flags=re.M)]
+        plain = bool(reps) and all(re.fullmatch(r"[\w()+\-*|&<>?:!=]*", r_) and set(re.findall(r"[A-Za-z_]\w*", r_)) <= {"NSPECIES", "THERMAL", "NHEATPROCS", "NCOOLPROCS", "NEQUATIONS"}
+                                   for r_ in reps)
+        return reps, plain
+    ok = "#defineTHERMAL(NHEATPROCS||NCOOLPROCS)" in txt
+    reps, plain = cpp_defs("THERMAL")
+    if ok or not reps or plain:
+        ctx.check(ok, "R4", "macro:THERMAL", (MACROS, 0), "THERMAL = (NHEATPROCS || NCOOLPROCS), as has_thermal in Python", found="; ".join(reps) or "undefined")
+    else:
+        ctx.unrec("R4", "macro:THERMAL", (MACROS, 0), f"the definition of THERMAL is not understood: {'; '.join(reps)[:100]}")
     ok = "#if(NSPECIES+THERMAL)#defineNEQUATIONS(NSPECIES+THERMAL)#else#defineNEQUATIONS1#endif" in txt
-    ctx.check(ok, "R4", "macro:NEQUATIONS", (MACROS, 0), "NEQUATIONS = max(NSPECIES + THERMAL, 1), the same function as Python's n_eqns",
-              expected="#if (NSPECIES + THERMAL) / #define NEQUATIONS (NSPECIES + THERMAL) / #else / #define NEQUATIONS 1")
+    reps, plain = cpp_defs("NEQUATIONS")
+    if ok or not reps or plain:
+        ctx.check(ok, "R4", "macro:NEQUATIONS", (MACROS, 0), "NEQUATIONS = max(NSPECIES + THERMAL, 1), the same function as Python's n_eqns",
+                  expected="#if (NSPECIES + THERMAL) / #define NEQUATIONS (NSPECIES + THERMAL) / #else / #define NEQUATIONS 1", found="; ".join(reps) or "undefined")
+    else:
+        ctx.unrec("R4", "macro:NEQUATIONS", (MACROS, 0), f"the definition of NEQUATIONS is not understood: {'; '.join(reps)[:100]}")
     # --- declarations, constructors, offsets in every back-end template and configuration
     targets = []
     for rel in sorted(tree.glob("naunet/templates/cvode/src/*.j2") + tree.glob("naunet/templates/cvode/include/*.j2")):
@@ -854,8 +1154,11 @@ def _r4(ctx):
             if key in seen:
                 continue
             seen.add(key)
-            ctx.check(size == FAMILY[name], "R4", key, (rel, code.count("\n", 0, mm.start()) + 1),
-                      f"array `{name}` is declared with the size macro of its family", expected=f"{name}[{FAMILY[name]}]", found=f"{name}[{size}]")
+            if size == FAMILY[name] or _size_known(size):
+                ctx.check(size == FAMILY[name], "R4", key, (rel, code.count("\n", 0, mm.start()) + 1),
+                          f"array `{name}` is declared with the size macro of its family", expected=f"{name}[{FAMILY[name]}]", found=f"{name}[{size}]")
+            else:
+                ctx.unrec("R4", key, (rel, code.count("\n", 0, mm.start()) + 1), f"array `{name}` is declared with a size that is not arithmetic over the size macros: {size[:60]}")
         for fn, want_args in (("SUNDenseMatrix", None), ("SUNSparseMatrix", ["NEQUATIONS", "NEQUATIONS", "NNZ", "CSR_MAT"]),
                               ("SUNMatrix_cuSparse_NewBlockCSR", [None, "NEQUATIONS", "NEQUATIONS", "NNZ"]),
                               ("N_VNewEmpty_Serial", ["(sunindextype)NEQUATIONS"]), ("N_VNew_Cuda", ["NEQUATIONS*n_system_per_stream"]),
@@ -871,17 +1174,33 @@ def _r4(ctx):
                 got = [_norm(a) for a in args[:len(w)]]
                 good = all(x is None or x == g for x, g in zip(w, got)) and len(got) == len(w)
                 key = f"{label}:{fname}:{fn}"
-                ctx.check(good, "R4", key, (rel, code.count("\n", 0, mm.start()) + 1),
-                          f"{fn} in {fname} is sized by the macros of its family", expected=str(w), found=str(got))
+                if good or all(_size_known(g_.replace("(sunindextype)", "").replace("n_system_per_stream", "1")) or g_ in ("CSR_MAT", "CSC_MAT") for x_, g_ in zip(w, got) if x_ is not None):
+                    ctx.check(good, "R4", key, (rel, code.count("\n", 0, mm.start()) + 1),
+                              f"{fn} in {fname} is sized by the macros of its family", expected=str(w), found=str(got))
+                else:
+                    ctx.unrec("R4", key, (rel, code.count("\n", 0, mm.start()) + 1), f"{fn} in {fname}: arguments {got} are not arithmetic over the size macros")
         for var, mac in (("yistart", "NEQUATIONS"), ("jistart", "NNZ")):
             for mm in re.finditer(r"\b" + var + r"\s*=\s*([^;]+);", code):
                 noff += 1
                 f = sk.func_of_offset(mm.start())
-                ctx.check(_norm(mm.group(1)) in (f"cur*{mac}", f"{mac}*cur"), "R4", f"{label}:{f.name if f else '?'}:{var}",
-                          (rel, code.count("\n", 0, mm.start()) + 1), f"kernel offset {var} = cur * {mac}", expected=f"cur * {mac}", found=mm.group(1).strip())
+                off = _norm(mm.group(1))
+                if off in (f"cur*{mac}", f"{mac}*cur") or _size_known(off.replace("cur", "1")):
+                    ctx.check(off in (f"cur*{mac}", f"{mac}*cur"), "R4", f"{label}:{f.name if f else '?'}:{var}",
+                              (rel, code.count("\n", 0, mm.start()) + 1), f"kernel offset {var} = cur * {mac}", expected=f"cur * {mac}", found=mm.group(1).strip())
+                else:
+                    ctx.unrec("R4", f"{label}:{f.name if f else '?'}:{var}", (rel, code.count("\n", 0, mm.start()) + 1), f"kernel offset {var} = {mm.group(1).strip()[:60]}: not understood")
     ctx.floor("R4", "array declarations", ndecl, 36)
     ctx.floor("R4", "matrix/vector constructors", nctor, 12)
     ctx.floor("R4", "kernel offsets", noff, 3)
+
+
+_SIZE_MACROS = {"NREACTIONS", "NHEATPROCS", "NCOOLPROCS", "NEQUATIONS", "NNZ", "NSPECIES", "NELEMENTS", "THERMAL"}
+
+
+def _size_known(size: str) -> bool:
+    """the (whitespace-free) size expression is integer arithmetic over the size macros: a value that differs from the family's macro
+    is then a different size, not an unknown one"""
+    return bool(re.fullmatch(r"[\w()+\-*/]+", size)) and set(re.findall(r"[A-Za-z_]\w*", size)) <= _SIZE_MACROS
 
 
 def _split_args(code, i):
@@ -907,6 +1226,15 @@ def _split_args(code, i):
 
 T = FILE
 MUTANTS = [
+    {"name": "rowwise-extend-slice-one-column-short", "file": T, "old": '        nnz = 0\n\n        for row in range(n_eqns):\n            spjacrptr.append(nnz)\n            for col in range(n_eqns):\n                elem = jacrhs[row * n_eqns + col]\n                if elem != "0.0":\n                    spjaccval.append(col)\n                    spjacdata.append(f"{elem}")\n                    nnz += 1\n        spjacrptr.append(nnz)\n',
+     "new": '        for row in range(n_eqns):\n            spjacrptr.append(len(spjacdata))\n            rowelems = jacrhs[row * n_eqns : (row + 1) * n_eqns - 1]\n            spjaccval.extend(col for col, elem in enumerate(rowelems) if elem != "0.0")\n            spjacdata.extend(elem for _, elem in enumerate(rowelems) if elem != "0.0")\n        nnz = len(spjacdata)\n        spjacrptr.append(nnz)\n', "rules": ["R1"]},
+    {"name": "rowwise-extend-values-selected-by-another-sentinel", "file": T, "old": '        nnz = 0\n\n        for row in range(n_eqns):\n            spjacrptr.append(nnz)\n            for col in range(n_eqns):\n                elem = jacrhs[row * n_eqns + col]\n                if elem != "0.0":\n                    spjaccval.append(col)\n                    spjacdata.append(f"{elem}")\n                    nnz += 1\n        spjacrptr.append(nnz)\n',
+     "new": '        for row in range(n_eqns):\n            spjacrptr.append(len(spjacdata))\n            rowelems = jacrhs[row * n_eqns : (row + 1) * n_eqns]\n            spjaccval.extend(col for col, elem in enumerate(rowelems) if elem != "0.0")\n            spjacdata.extend(elem for _, elem in enumerate(rowelems) if elem != "0")\n        nnz = len(spjacdata)\n        spjacrptr.append(nnz)\n', "rules": ["R1"]},
+    {"name": "csr-scan-over-recorded-columns-thermal-writers-not-recorded", "edits": [
+        {"file": T, "old": '        jacrhs = ["0.0"] * n_eqns * n_eqns\n', "new": '        jacrhs = ["0.0"] * n_eqns * n_eqns\n        usedcols = set()\n'},
+        {"file": T, "old": "            pspecidx = [species.index(p) for p in react.products]\n", "new": "            pspecidx = [species.index(p) for p in react.products]\n            usedcols.update(rspecidx)\n"},
+        {"file": T, "old": "                    didx = species.index(dspec)\n", "new": "                    didx = species.index(dspec)\n                    usedcols.add(didx)\n"},
+        {"file": T, "old": "            for col in range(n_eqns):\n                elem = jacrhs[row * n_eqns + col]\n", "new": "            for col in sorted(usedcols):\n                elem = jacrhs[row * n_eqns + col]\n"}], "rules": ["R1"]},
     {"name": "initjac-colvals-from-rows", "file": JAC, "old": "        {{ ode.jac.cols | map('string') | join(\", \") | stmwrap(80, 8) }}\n",
      "new": "        {{ ode.jac.rows | map('string') | join(\", \") | stmwrap(80, 8) }}\n", "rules": ["R3"]},
     {"name": "initjac-colvals-loop-over-a-slice", "file": JAC, "old": "        {{ ode.jac.cols | map('string') | join(\", \") | stmwrap(80, 8) }}\n",
@@ -944,6 +1272,8 @@ MUTANTS = [
     {"name": "nequations-macro", "file": MACROS, "old": "#define NEQUATIONS (NSPECIES + THERMAL)", "new": "#define NEQUATIONS (NSPECIES)", "rules": ["R4"]},
 ]
 BENIGN = [
+    {"name": "csr-rowwise-extend-of-filtered-selections", "file": T, "old": '        nnz = 0\n\n        for row in range(n_eqns):\n            spjacrptr.append(nnz)\n            for col in range(n_eqns):\n                elem = jacrhs[row * n_eqns + col]\n                if elem != "0.0":\n                    spjaccval.append(col)\n                    spjacdata.append(f"{elem}")\n                    nnz += 1\n        spjacrptr.append(nnz)\n',
+     "new": '        for row in range(n_eqns):\n            spjacrptr.append(len(spjacdata))\n            rowelems = jacrhs[row * n_eqns : (row + 1) * n_eqns]\n            spjaccval.extend(col for col, elem in enumerate(rowelems) if elem != "0.0")\n            spjacdata.extend(elem for _, elem in enumerate(rowelems) if elem != "0.0")\n        nnz = len(spjacdata)\n        spjacrptr.append(nnz)\n'},
     {"name": "initjac-colvals-printed-by-a-loop-with-separator", "file": JAC, "old": "        {{ ode.jac.cols | map('string') | join(\", \") | stmwrap(80, 8) }}\n",
      "new": "        {% for c in ode.jac.cols %}{{ c }}{{ \", \" if not loop.last else \"\" }}{% endfor %}\n"},
     {"name": "rowptr-starts-at-zero-appended-after-each-row", "edits": [
